@@ -301,18 +301,35 @@ def _run_task(task):
     fn = getattr(mod, task["family"])
     stats = Stats()
     out = {"task": task, "paths": 0, "obligations": 0, "discharged": 0, "candidates": [], "inconclusive": [],
-           "samples": [], "functions": set(), "models": set(), "outcomes": {}}
+           "samples": [], "functions": set(), "models": set(), "outcomes": {}, "witnesses_ok": 0, "witness_mismatch": [], "witness_skipped": 0}
     budget = task.get("time_budget", 600)
+
+    witness_every = task.get("witness_every", 40)
+    counter = {"n": 0}
 
     def run_one(w):
         ctx = PathCtx(w, task)
+        completed = False
         try:
             fn(ctx, **task.get("params", {}))
+            completed = True
         except PathEnd:
             pass
         except Inconclusive as e:
             out["inconclusive"].append(str(e))
         finally:
+            # anti-vacuity / model validation: replay a sample of the explored paths natively and compare
+            # every step's outcome with what the symbolic execution predicted on that path
+            if completed and not ctx.candidates and ctx.scn is not None and ctx.scn.log and counter["n"] % witness_every == 0:
+                try:
+                    verdict = witness_replay(ctx)
+                    if verdict is True:
+                        out["witnesses_ok"] += 1
+                    elif verdict is not None:
+                        out["witness_mismatch"].append(verdict)
+                except Exception as e:
+                    out["witness_skipped"] += 1
+            counter["n"] += 1
             out["obligations"] += ctx.obligations
             out["discharged"] += ctx.discharged
             out["candidates"].extend(ctx.candidates)
@@ -361,6 +378,41 @@ def _run_task(task):
     out["models"] = sorted(out["models"])
     out["wall_s"] = time.time() - t0
     return out
+
+
+def witness_replay(ctx):
+    """Concretise this (passing) path with a model of its path condition, run it natively and compare
+    outcome by outcome.  True = agrees; dict = disagreement; None = not replayable."""
+    w = ctx.w
+    m = ctx._small_model([])
+    if m is None:
+        return None
+    try:
+        cz = Concretiser(ctx.scn, m)
+        scenario = cz.scenario()
+        preds = [render_outcome(st.outcome, cz) for st in ctx.scn.log]
+    except Unreplayable:
+        return None
+    for st in ctx.scn.log:
+        if st.op in ("hwrite_cancel", "quiesce"):
+            return None      # timing-dependent natively
+        if "reflink" in st.op and ctx.scn.env.reflink_supported:
+            return None      # this sandbox's filesystem cannot reflink
+    if any(k.startswith("rd") for k in w.sym_inputs):
+        return None          # the path contains short reads, which a healthy local filesystem does not produce
+    obs, tree = run_native(scenario, scenario.get("flavour", ctx.task["flavour"]))
+    for i, (p, o) in enumerate(zip(preds, obs)):
+        if o.get("outcome") == "unsupported":
+            return None
+        if p["outcome"] == "crash" or o.get("outcome") == "crash":
+            if p["outcome"] != o.get("outcome"):
+                return {"step": i, "op": scenario["steps"][i], "model": p, "native": o, "shim": scenario.get("shim")}
+            continue
+        if not obs_equal(p, o, loose_io_kind=True):
+            return {"step": i, "op": scenario["steps"][i], "model": p, "native": o, "shim": scenario.get("shim")}
+    if len(obs) < len(preds):
+        return {"step": len(obs), "model": "more steps", "native": "ended early"}
+    return True
 
 
 def replay_candidate(c, task):
@@ -471,7 +523,9 @@ def run_check(prop_id, tasks, tier, seed, level_note, assumptions, bounds, t_sta
         "coverage": {
             "states": max(1, sum(r["steps"] for r in results)),
             "transitions": max(1, sum(r["branches"] for r in results) + paths),
-            "traces_validated_against_impl": sum(1 for r in results for c in r["candidates"] if c["status"] in ("confirmed", "mismatch")),
+            "traces_validated_against_impl": sum(r.get("witnesses_ok", 0) for r in results) + sum(1 for r in results for c in r["candidates"] if c["status"] == "confirmed"),
+            "witness_paths_replayed_natively": sum(r.get("witnesses_ok", 0) for r in results),
+            "witness_paths_not_replayable": sum(r.get("witness_skipped", 0) for r in results),
             "samples": samples[:12] or [{"note": "no paths"}],
             "paths": paths,
             "obligations": obligations,
@@ -513,7 +567,11 @@ def run_check(prop_id, tasks, tier, seed, level_note, assumptions, bounds, t_sta
             print("VIOLATION property=%s replay=%s" % (prop_id, p))
             print("  what: %s [%s]" % (c["what"], c["signature"]))
         return 1
-    if mismatches or inconclusive or unreplayable:
+    wm = [(r["task"]["family"], x) for r in results for x in r.get("witness_mismatch", [])]
+    if wm and not violations:
+        for f, x in wm[:5]:
+            print("MODEL-MISMATCH on a witness path (not a violation) %s: %s" % (f, json.dumps(x, default=str)[:600]))
+    if mismatches or inconclusive or unreplayable or wm:
         for c in mismatches[:5]:
             print("MODEL-MISMATCH (not a violation): %s [%s]" % (c["what"], c["signature"]))
         for c in unreplayable[:5]:
